@@ -115,6 +115,15 @@ CHECKS["C01"] = dict(
          "C04/C06. scipy Rotation composition rules are parameters, sampled with rational rotations.",
     design="5 C01", technique="Lean 4 proof (matrix algebra) + executable pose model correspondence")
 
+CHECKS["C11"] = dict(
+    text="Theorems for every proper rotation over Q (Mathlib matrices, 3x3 adjugate): axes are the columns "
+         "of R, orthonormal and right-handed in z,y,x order; world rotations compose on the left, internal "
+         "ones on the right, translations add (world) / add R d (internal); from_axes from (z,y), (y,x), (z,x) "
+         "reads back the same axes for every orthonormal pair with no case distinction; translate_euler is an "
+         "involution; affine_matrix maps src to dst; local_coordinates = p/sigma + R(k-(shape-1)/2). scipy's "
+         "representation conversions are parameters (sampled incl. degenerate/mixed batches).",
+    design="5 C11", technique="Lean 4 proof (matrix algebra, adjugate) + executable rigid-motion model correspondence")
+
 NOT_YET = {}
 
 
